@@ -26,7 +26,7 @@ import (
 )
 
 const hookImport = "github.com/willabides/rjson/verifhook"
-const vsyncImport = "github.com/willabides/rjson/internal/vsync"
+const vsyncImport = "github.com/willabides/rjson/verifhook/vsync"
 
 type report struct {
 	Mode      string         `json:"mode"`
@@ -60,7 +60,7 @@ func main() {
 	if _, err := os.Stat(filepath.Join(*hooks, "verifhook", "sched.go")); err == nil {
 		replace[filepath.Join(*repo, "verifhook", "sched.go")] = filepath.Join(*hooks, "verifhook", "sched.go")
 	}
-	replace[filepath.Join(*repo, "internal", "vsync", "vsync.go")] = filepath.Join(*hooks, "vsync", "vsync.go")
+	replace[filepath.Join(*repo, "verifhook", "vsync", "vsync.go")] = filepath.Join(*hooks, "vsync", "vsync.go")
 
 	if *mode == "full" {
 		dirs := []string{*repo, filepath.Join(*repo, "internal", "fp")}
